@@ -21,6 +21,7 @@ ASSUMPTIONS = ["tolerances 1e-11 relative to the norm of the input", "fullrank L
                "R upper-triangular is asserted for rank-2 (matrix) inputs incl. harness-fused ones"]
 BUDGET = {'quick': 170, 'thorough': 1200}
 TOL = 2e-11
+FUSE_FIRST = ('hard', 'meta', 'metaL', 'metaR')
 
 
 def bipartitions(r, tier):
@@ -103,12 +104,18 @@ def cases(g, tier):
                             for Ua, Va in axs:
                                 for fs in ((False, True) if (Ua, Va) == (-1, 0) and nU else (False,)):
                                     yield {'td': td, 'axes': [L, R], 'sU': sU, 'nU': nU, 'Uaxis': Ua, 'Vaxis': Va, 'fix_signs': fs}
-                        yield {'td': td, 'axes': [L, R], 'sU': sU, 'fuse_first': 'hard'}
+                        for ff in FUSE_FIRST:
+                            if (ff == 'metaL' and len(L) < 2) or (ff == 'metaR' and len(R) < 2):
+                                continue
+                            yield {'td': td, 'axes': [L, R], 'sU': sU, 'fuse_first': ff, 'nU': ff != 'metaR'}
                     else:
                         axs = [(-1, 0)] + ([(0, -1), (len(L) // 2, len(R))] if td['var'][0] == 'fresh' else [])
                         for Qa, Ra in axs:
                             yield {'td': td, 'axes': [L, R], 'sU': sU, 'Uaxis': Qa, 'Vaxis': Ra}
-                        yield {'td': td, 'axes': [L, R], 'sU': sU, 'fuse_first': 'hard'}
+                        for ff in FUSE_FIRST:
+                            if (ff == 'metaL' and len(L) < 2) or (ff == 'metaR' and len(R) < 2):
+                                continue
+                            yield {'td': td, 'axes': [L, R], 'sU': sU, 'fuse_first': ff}
     else:
         ms = GL.msize(sym, 3)
         for m in itertools.product(range(ms), repeat=2):
@@ -124,6 +131,9 @@ def cases(g, tier):
                                     for Ua in ((-1, 0) if var[0] == 'fresh' else (-1,)):
                                         yield {'m': list(m[:half]), 's0': s0, 'half': half, 'drop': drop, 'var': var, 'sU': sU,
                                                'which': which, 'Uaxis': Ua}
+                                    if half == 2 and which in ('LM', 'SR'):
+                                        yield {'m': list(m[:half]), 's0': s0, 'half': half, 'drop': drop, 'var': var, 'sU': sU,
+                                               'which': which, 'Uaxis': -1, 'metaL': True}
 
 
 def new_leg_reference(mods, b, L, R, s_new, n_side):
@@ -184,9 +194,16 @@ def run_case(case, cfg, seed):
             sg = tuple(b.s[i] for i in L + R)
             scale = max(1.0, float(np.linalg.norm(b.A)))
             fused = case.get('fuse_first')
-            if fused:
+            unf = None
+            if fused in ('hard', 'meta'):
                 xm = x.fuse_legs(axes=(tuple(L), tuple(R)), mode=fused)
-                axes = (0, 1)
+                axes, unf = (0, 1), (0, 1)
+            elif fused == 'metaL':
+                xm = x.fuse_legs(axes=(tuple(L),) + tuple(R), mode='meta')
+                axes, unf = (0, tuple(range(1, 1 + len(R)))), (0,)
+            elif fused == 'metaR':
+                xm = x.fuse_legs(axes=tuple(L) + (tuple(R),), mode='meta')
+                axes, unf = (tuple(range(len(L))), len(L)), (len(L),)
             else:
                 xm, axes = x, (tuple(L), tuple(R))
             if fac == 'svd':
@@ -197,9 +214,10 @@ def run_case(case, cfg, seed):
                 if st != 'ok':
                     return 'viol', f"svd: unexpected {st}: {res}", b.nblocks
                 U, S, V = res
-                nl = 1 if fused else len(L)
-                if U.ndim != nl + 1 or V.ndim != (1 if fused else len(R)) + 1:
-                    return 'viol', f"svd: factor ranks {U.ndim}, {V.ndim}", b.nblocks
+                nl = 1 if fused in ('hard', 'meta', 'metaL') else len(L)
+                nrr = 1 if fused in ('hard', 'meta', 'metaR') else len(R)
+                if U.ndim != nl + 1 or V.ndim != nrr + 1:
+                    return 'viol', f"svd: factor ranks {U.ndim}, {V.ndim}; expected {nl + 1}, {nrr + 1}", b.nblocks
                 Up, Vp = U.moveaxis(Ua, -1), V.moveaxis(Va, 0)
                 # structure
                 lu, lv = U.get_legs(Ua % U.ndim), V.get_legs(Va % V.ndim)
@@ -227,7 +245,7 @@ def run_case(case, cfg, seed):
                     return 'viol', 'svd: ' + m, b.nblocks
                 rec = Up @ S @ Vp
                 if fused:
-                    rec = rec.unfuse_legs(axes=(0, 1))
+                    rec = rec.unfuse_legs(axes=unf)
                 m = TC.check_result(rec, A, sp, sg, b.n, tol=TOL, exports=False, what='U S V')
                 if m:
                     return 'viol', 'svd: ' + m, b.nblocks
@@ -242,7 +260,10 @@ def run_case(case, cfg, seed):
             if st != 'ok':
                 return 'viol', f"qr: unexpected {st}: {res}", b.nblocks
             Q, Rr = res
-            nl = 1 if fused else len(L)
+            nl = 1 if fused in ('hard', 'meta', 'metaL') else len(L)
+            nrr = 1 if fused in ('hard', 'meta', 'metaR') else len(R)
+            if Q.ndim != nl + 1 or Rr.ndim != nrr + 1:
+                return 'viol', f"qr: factor ranks {Q.ndim}, {Rr.ndim}; expected {nl + 1}, {nrr + 1}", b.nblocks
             Qp, Rp = Q.moveaxis(Qa, -1), Rr.moveaxis(Ra, 0)
             lq, lr = Q.get_legs(Qa % Q.ndim), Rr.get_legs(Ra % Rr.ndim)
             if lq.s != sU or lr.s != -sU:
@@ -257,11 +278,11 @@ def run_case(case, cfg, seed):
                 return 'viol', 'qr: ' + m, b.nblocks
             rec = Qp @ Rp
             if fused:
-                rec = rec.unfuse_legs(axes=(0, 1))
+                rec = rec.unfuse_legs(axes=unf)
             m = TC.check_result(rec, A, sp, sg, b.n, tol=TOL, exports=False, what='Q R')
             if m:
                 return 'viol', 'qr: ' + m, b.nblocks
-            if Rp.ndim == 2 and (fused or (len(L) == 1 and len(R) == 1)):
+            if Rp.ndim == 2 and (fused == 'hard' or (len(L) == 1 and len(R) == 1)):
                 lg = Rp.get_legs()
                 for t0 in lg[0].t:
                     for t1 in lg[1].t:
@@ -284,15 +305,23 @@ def run_case(case, cfg, seed):
         y = b.x
         perm = tuple(range(half, 2 * half)) + tuple(range(half))
         axes = (tuple(range(half)), tuple(range(half, 2 * half)))
+        mf = case.get('metaL') and half == 2
         scale = max(1.0, float(np.linalg.norm(b.A)))
         sU, Ua = case['sU'], case['Uaxis']
         if fac == 'eigh':
             h = y + y.transpose(perm).conj()
             H = b.A + np.transpose(b.A, perm).conj()
-            st, res = TC.call(lambda: yastn.eigh(h, axes=axes, sU=sU, Uaxis=Ua, which=case['which']))
+            hm, axm = h, axes
+            if mf:
+                hm, axm = h.fuse_legs(axes=((0, 1), 2, 3), mode='meta'), (0, (1, 2))
+            st, res = TC.call(lambda: yastn.eigh(hm, axes=axm, sU=sU, Uaxis=Ua, which=case['which']))
             if st != 'ok':
                 return 'viol', f"eigh: unexpected {st}: {res}", b.nblocks
             S, U = res
+            if mf:
+                if U.ndim != 2:
+                    return 'viol', f"eigh on an input with meta-fused row legs: U has rank {U.ndim}, expected 2", b.nblocks
+                U = U.moveaxis(Ua, -1).unfuse_legs(axes=0).moveaxis(-1, Ua)
             Up = U.moveaxis(Ua, -1)
             lu = U.get_legs(Ua % U.ndim)
             if lu.s != sU or tuple(U.n) != z or tuple(S.n) != z or not S.isdiag:
@@ -320,7 +349,10 @@ def run_case(case, cfg, seed):
                 return 'viol', f"eigh: spectrum {mz} differs from numpy.linalg.eigvalsh {nz}", b.nblocks
             return 'ok', None, b.nblocks
         # eig
-        st, res = TC.call(lambda: yastn.eig(y, axes=axes, sU=sU, Uaxis=Ua, which=case['which']))
+        ym, axm = y, axes
+        if mf:
+            ym, axm = y.fuse_legs(axes=((0, 1), 2, 3), mode='meta'), (0, (1, 2))
+        st, res = TC.call(lambda: yastn.eig(ym, axes=axm, sU=sU, Uaxis=Ua, which=case['which']))
         if st == 'yerr':
             own = b.own
             if any(own[i] != own[i + half] for i in range(half)):
@@ -329,6 +361,11 @@ def run_case(case, cfg, seed):
         if st != 'ok':
             return 'viol', f"eig: unexpected {st}: {res}", b.nblocks
         U, S, V = res
+        if mf:
+            if U.ndim != 2 or V.ndim != 3:
+                return 'viol', (f"eig on an input with meta-fused row legs and plain column legs: U, V have ranks {U.ndim}, "
+                                f"{V.ndim}; expected 2, 3"), b.nblocks
+            U = U.moveaxis(Ua, -1).unfuse_legs(axes=0).moveaxis(-1, Ua)
         Up = U.moveaxis(Ua, -1)
         lu = U.get_legs(Ua % U.ndim)
         if lu.s != sU or V.get_legs(0).s != -sU:
